@@ -264,6 +264,11 @@ def cases(tier, seed):
     for i0 in range(0, n2, 4):
         out.append({"k": "packed", "u": "U2", "i0": i0, "i1": min(n2, i0 + 4)})
         out.append({"k": "multiples", "u": "U2", "i0": i0, "i1": min(n2, i0 + 4)})
+    # the same universes over indeterminates that do not include q0 / are not adjacent (constants default to q0)
+    for i0 in range(0, n2, 4):
+        out.append({"k": "packed", "u": "U2n", "i0": i0, "i1": min(n2, i0 + 4)})
+        out.append({"k": "multiples", "u": "U2m", "i0": i0, "i1": min(n2, i0 + 4)})
+    out.append({"k": "U3", "names": ["q1", "q3", "q4"]})
     for i in range(0, n1, 1):
         out.append({"k": "scalar", "u": "U1", "i": i, "mod": 7 if tier == "quick" else 1})
     for i in range(0, n2, 1):
@@ -288,6 +293,10 @@ def uni(name):
         return ("q0",), space.universe(("q0",), 3, 3, [1, -1, 2])
     if name == "U2b":
         return ("q0", "q1", "q2"), space.universe(("q0", "q1", "q2"), 2, 2, [1, -2])
+    if name == "U2n":
+        return ("q1", "q2"), U2()
+    if name == "U2m":
+        return ("q2", "q10"), U2()
     return ("q0", "q1"), U2()
 
 
@@ -339,6 +348,7 @@ def run_case(case, R):
             R.state((case["u"], "cofactor", i))
     elif k == "U3":
         names, pool = U3()
+        names = tuple(case.get("names", names))
         for i, ta in enumerate(pool):
             for j, tb in enumerate(pool):
                 spa, spb = space.scalar_spec(names, ta), space.scalar_spec(names, tb)
